@@ -240,12 +240,17 @@ def register(reg, prop="C20"):
             s.fields["x"] = reg.sym_tensor(I, I.ctx.fresh_name("self.x"), (n,))
             s.fields["y"] = reg.sym_tensor(I, I.ctx.fresh_name("self.y"), (n,))
         s.fields["dg"] = T.LamTensor((n,), lambda i: spec_d(I, hh, dd, i))
+        if "result" not in fr.locals:
+            return              # pre-state call (ghost names for the requires only)
         # instances of lemma spec_d_is_fc (proved separately for all reals): at every index read
         # (interior pair i-1,i) and at both ends
         m = hh.shape[0]
         I.add_forall(ForallV(lambda i: use_spec_fc(hh.fn(ops.sub(i, 1)), hh.fn(i), dd.fn(ops.sub(i, 1)), dd.fn(i)),
                              1, m, "i"))
         I.session.note("lemma instances used: spec_d_is_fc (proved in this run)")
+        # ghost trace of constructions (used by callers' postconditions, e.g. C22)
+        if "result" in fr.locals:
+            I.ctx.ghost.setdefault("pchip_objs", []).append((s, x, y))
         I.ctx.assume(z3.Implies(to_z3(m) >= 2, z3.And(
             use_spec_fc(hh.fn(0), hh.fn(1), dd.fn(0), dd.fn(1)),
             use_spec_fc(hh.fn(ops.sub(m, 1)), hh.fn(ops.sub(m, 2)), dd.fn(ops.sub(m, 1)), dd.fn(ops.sub(m, 2))))))
@@ -309,6 +314,8 @@ def register(reg, prop="C20"):
                 I2.saw_index(v + 1)
                 return v
             fr.locals["idx"] = idx
+        if fr.locals.get("result") is not None:
+            I.ctx.ghost.setdefault("pchip_calls", []).append((s, fr.locals["xq"], fr.locals["result"]))
         if fr.locals.get("result") is not None and code is None:
             # instances of lemma hermite_shape (proved separately for all reals) for the interval
             # of each query point -- used by the derived clauses, not by the code proof
